@@ -404,10 +404,17 @@ def inline_family(ck, quick, rng):
     instruction set with a short and a long jump, 4-bit and 8-bit fillers, macros with block labels referenced forwards and
     backwards, and the same program with every call written out in place.  Everything stays below address 0x10, so the
     short jump is always valid in the end and only one layout is consistent; the two programs must agree (Outcomes.AllEqual)."""
+    pairs = inline_pairs(rng, 150 if quick else 4000)
+    return _inline_judge(ck, pairs)
+
+
+def inline_pairs(rng, n):
+    """(macro program, hand-inlined program) texts for inline_family (also used as iteration-budget material: blocks
+    with two labels whose inner sizes depend on them)"""
     isa = ("    jmp {a} => { assert(a < 0x10), 0x1 @ a`4 }\n    jmp {a} => 0xff @ a`%d\n    nib => 0x5\n    byt => 0xbb\n"
            "    ldn {v} => 0x2 @ v`4\n    js {a} => { assert(a < 0x10), a`4 }\n    js {a} => 0xf @ a`8\n")
     pairs = []
-    for k in range(150 if quick else 4000):
+    for k in range(n):
         longw = rng.choice([4, 4, 16])
         nmac = rng.randrange(1, 3)
         macros = []
@@ -463,6 +470,10 @@ def inline_family(ck, quick, rng):
                         t = re.sub(r"\b%s\b" % lab, "x%d_%s" % (ncall, lab), t)
                     itext += t + "\n"
         pairs.append((mtext, itext))
+    return pairs
+
+
+def _inline_judge(ck, pairs):
     jobs = []
     for mt, it in pairs:
         for t in (mt, it):
